@@ -12,7 +12,7 @@
                 (2, sig :: rem) partial, (3,[]) shutdown error, (4,[]) fmt wrap — each followed by what it
                 wraps; (5,[n]) a combination followed by its n members; (6,[]) the base error (may be
                 omitted at the very end) ; (7,[is_any; perm; shutdown; throttle; partial_signal; rem..]) an error type
-                with its own As/Is methods, followed by what it wraps ; (9,[]) alone = success
+                with its own As/Is methods, followed by what it wraps ; (9,[]) alone = success ; a leading (8,[]) = the exporter call ignores its context
      attempts = observed calls of the exporter function: (item ids, deadline class)
                 class 0 none, 1 = the caller's deadline, 2 = start + timeout
      delays   = the back-off delays logged by retrySender ("interval"), in order
@@ -94,11 +94,14 @@ Definition err_of (ts : list (Z * list Z)) : err :=
   | _ => EJoin [EJoin []; EJoin []; EJoin []]
   end.
 
+(* a leading token (8,[]) marks an exporter call that ignores its context *)
 Definition attempt_of (p : Z * list (Z * list Z)) : attempt :=
-  let '(dur, ls) := p in
+  let '(dur, ls0) := p in
+  let ig := match ls0 with (8, _) :: _ => true | _ => false end in
+  let ls := if ig then tl ls0 else ls0 in
   match ls with
-  | [(9, _)] => {| a_dur := dur; a_res := ROk |}
-  | _ => {| a_dur := dur; a_res := RErr (err_of ls) |}
+  | [(9, _)] => {| a_dur := dur; a_res := ROk; a_ignores_ctx := ig |}
+  | _ => {| a_dur := dur; a_res := RErr (err_of ls); a_ignores_ctx := ig |}
   end.
 
 Definition config_of (h : list Z) : config :=
